@@ -32,7 +32,13 @@ func c11RunOnce(sc c11Scenario, prefix []int) (*vsync.Execution, []string, strin
 		return nil, nil, "", err
 	}
 	vsrv.Quiesce()
+	if sc.quietGate {
+		vsync.Quiet = func() bool { return vsrv.RunnableGoroutines() == 0 }
+	} else {
+		vsync.Quiet = nil
+	}
 	ex := vsync.Run(sc.bodies(w), prefix)
+	vsync.Quiet = nil
 	var bad []string
 	if ex.Deadlock != "" {
 		bad = append(bad, "deadlock\t"+ex.Deadlock)
@@ -170,9 +176,14 @@ func c11Worker(args []string) int {
 		seenViol := map[string]bool{}
 		total := 0
 		deadline := time.Now().Add(20 * time.Minute)
-		for bound := 0; bound <= j.Bound; bound++ {
+		maxBound := j.Bound
+		if sc.quietGate {
+			maxBound = 1 // deviation bound (see below), both tiers: an execution takes ~0.15 s
+		}
+		for bound := 0; bound <= maxBound; bound++ {
 			n := 0
 			capped := false
+			rootChild := 0
 			var rec func(prefix []int)
 			rec = func(prefix []int) {
 				if capped {
@@ -187,6 +198,10 @@ func c11Worker(args []string) int {
 					res.Err = err.Error()
 					capped = true
 					return
+				}
+				if len(prefix) == 0 && j.Parts > 1 && j.Part != 0 {
+					n-- // the root execution is counted by part 0 only
+					total--
 				}
 				n++
 				total++
@@ -254,17 +269,23 @@ func c11Worker(args []string) int {
 					if i >= len(prefix) {
 						for alt := 1; alt < len(p.Enabled); alt++ {
 							cost := pre
-							if p.RunningStillEnabled {
-								cost++
+							if p.RunningStillEnabled || sc.quietGate {
+								cost++ // quiet-gate scenarios bound deviations: every departure from the default choice counts
 							}
 							if cost > bound {
 								continue
+							}
+							if len(prefix) == 0 && j.Parts > 1 {
+								rootChild++
+								if rootChild%j.Parts != j.Part {
+									continue
+								}
 							}
 							// schedules with fewer preemptions than `bound` were explored at an earlier level unless this branch adds one
 							rec(append(append([]int{}, choices[:i]...), alt))
 						}
 					}
-					if p.Choice != 0 && p.RunningStillEnabled {
+					if p.Choice != 0 && (p.RunningStillEnabled || sc.quietGate) {
 						pre++
 					}
 				}
